@@ -9,6 +9,10 @@ import hashlib
 import os
 
 
+class Undecided(Exception):
+    """the code no longer has the shape a rule knows how to read: the rule gives NO verdict (neither holds nor violated)"""
+
+
 class AnalysisError(Exception):
     """An anchor vanished or an idiom is not recognised: the run must end with exit 2."""
 
